@@ -29,6 +29,7 @@ from asl.values import USERISH, atoms_deep
 from . import c01, c04, c09
 from .c05 import pull_nodes
 from .common import real_units
+from .common import present_units as _present
 
 LEVEL = {
     "decided": "C20 (necessary clauses): (R20.1) no container that outlives an iteration of a source-pulling loop grows "
@@ -70,7 +71,7 @@ def run(ctx) -> None:
                       ("R20.4", "per-round temporaries are created inside the round loop")):
         ctx.rule(rid, text)
     ctx.tables["documented accumulators"] = ACCUMULATORS
-    for short in STREAMING:
+    for short in _present(ctx, STREAMING):
         ctx.count("streaming_units")
         if short in ACCUMULATORS:
             ctx.ok("R20.1", short, f"documented accumulator: {ACCUMULATORS[short]}")
@@ -383,12 +384,12 @@ def _window(ctx, u, cfg, name: Optional[str], grown: ast.AST, n: Node) -> Tuple[
         clears = [c for c in cfg.nodes if c.kind == "call" and not c.tag and norm(c.ast.func) == f"{name}.clear"]  # type: ignore[union-attr]
         if not fill_loops:
             return False, "the batch is not filled by a range(n)-bounded loop"
-        if not clears:
-            return False, "the batch is never cleared"
         fl = fill_loops[0]
         heads = [s for s in cfg.nodes if s.kind == "siter" and s.ast is fl and not s.tag]
         rebinds = [s for s in cfg.nodes if s.kind == "store" and not s.tag
                    and any(isinstance(t, ast.Name) and t.id == name for t in s.info.get("targets", []))]
+        if not clears and not any(s.in_loop() for s in rebinds):
+            return False, "the batch is never cleared (nor started afresh)"
         for h in heads:
             # once a fill is complete, every way back into the fill loop passes a clear() (or a fresh list)
             outer = [a for (k, a) in h.regions if k == "loop"]
